@@ -32,7 +32,7 @@ for d in sorted(os.listdir(SEEDED)):
     verdict = 'CAUGHT' if pr.returncode == 1 and viol else ('undecided (exit 2)' if pr.returncode == 2 else 'missed (exit 0)')
     how = ''
     if viol:
-        how = 'bounded stand-in on the real code' if 'verifier could not process' in out else 'failed obligation'
+        how = 'bounded stand-in on the real code' if ('verifier could not process' in out or 'bounded search on the real code found' in out) and not any('unit=' in l and 'fn=None' not in l for l in failed) else 'failed obligation'
         how += '; no input' if 'no-failing-input-found' in viol[0] else '; replayed failing input'
     notes = open(os.path.join(full, 'notes.md')).read() if os.path.exists(os.path.join(full, 'notes.md')) else ''
     conf = json.load(open(os.path.join(full, 'confirm.json'))) if os.path.exists(os.path.join(full, 'confirm.json')) else {}
